@@ -1,7 +1,560 @@
-import Octo.Spec.Kleene
+import Octo.Lemmas.Logic
+/-!
+# C11 — Three-valued logic and NULL propagation
+
+Property: AND, OR and NOT follow Kleene three-valued logic over TRUE, FALSE and NULL for every combination of
+operands. Comparisons and other strict functions return NULL whenever an argument is NULL, and IS [NOT] NULL never
+returns NULL. WHERE keeps exactly the rows whose predicate is TRUE.
+
+`eval`, `materialize`, `filterRun`, `nullIs`, `fnNot`, … (Octo.Model.Logic) are the models of
+`execution.{And,Or,FunctionCall,Variable,Constant}.Evaluate`, `physical.Expression.Materialize`,
+`nodes.Filter.Run`, `octosql.Null.Is` and the bodies in `functions/functions.go`; they are tied to the code by the
+C11 correspondence run on every check.  `Octo.Gen.Strict.table` is regenerated from `functions/functions.go`
+on every check.  The reference semantics (`kAnd`, `kOr`, `not3`, `TTree.den`, `conforms`) is Octo.Spec.Kleene.
+
+No theorem below has a bound on the number of operands, the depth of a tree or the length of a stream.
+-/
 namespace Octo.C11
 open Octo Octo.Logic
 
-theorem stub : (1 : Nat) = 1 := rfl
+/-! ## AND / OR over TRUE, FALSE, NULL: the n-ary Kleene fold -/
+
+/-- `And.Evaluate` on operands that evaluate to truth values `ts` is the Kleene conjunction of `ts`, ∀ k -/
+theorem and_kleene (env : List (List Value)) (ts : List Tri) :
+    eval env (.and (ts.map fun t => .const t.toValue)) = .val (kAnd ts).toValue := by
+  simp only [eval]
+  rw [evalAnd_eq]
+  have : evalList env (ts.map fun t => Expr.const t.toValue) = ts.map fun t => Res.val t.toValue := by
+    have := evalList_const env (ts.map Tri.toValue)
+    simpa [List.map_map, Function.comp_def] using this
+  rw [this, andLoop_tri]
+  simp
+
+/-- `Or.Evaluate` on operands that evaluate to truth values `ts` is the Kleene disjunction of `ts`, ∀ k -/
+theorem or_kleene (env : List (List Value)) (ts : List Tri) :
+    eval env (.or (ts.map fun t => .const t.toValue)) = .val (kOr ts).toValue := by
+  simp only [eval]
+  rw [evalOr_eq]
+  have : evalList env (ts.map fun t => Expr.const t.toValue) = ts.map fun t => Res.val t.toValue := by
+    have := evalList_const env (ts.map Tri.toValue)
+    simpa [List.map_map, Function.comp_def] using this
+  rw [this, orLoop_tri]
+  simp
+
+/-- the same for arbitrary operand *expressions*, as long as each evaluates to a truth value -/
+theorem and_kleene_exprs (env : List (List Value)) (args : List Expr) (ts : List Tri)
+    (h : evalList env args = ts.map fun t => Res.val t.toValue) :
+    eval env (.and args) = .val (kAnd ts).toValue := by
+  simp only [eval]
+  rw [evalAnd_eq, h, andLoop_tri]
+  simp
+
+theorem or_kleene_exprs (env : List (List Value)) (args : List Expr) (ts : List Tri)
+    (h : evalList env args = ts.map fun t => Res.val t.toValue) :
+    eval env (.or args) = .val (kOr ts).toValue := by
+  simp only [eval]
+  rw [evalOr_eq, h, orLoop_tri]
+  simp
+
+/-- the binary tables, spelled out (what `kAnd`/`kOr` fold) -/
+theorem and_table :
+    and3 (some true) (some true) = some true ∧ and3 (some true) (some false) = some false ∧
+    and3 (some true) none = none ∧ and3 (some false) (some true) = some false ∧
+    and3 (some false) (some false) = some false ∧ and3 (some false) none = some false ∧
+    and3 none (some true) = none ∧ and3 none (some false) = some false ∧ and3 none none = none := by decide
+theorem or_table :
+    or3 (some true) (some true) = some true ∧ or3 (some true) (some false) = some true ∧
+    or3 (some true) none = some true ∧ or3 (some false) (some true) = some true ∧
+    or3 (some false) (some false) = some false ∧ or3 (some false) none = none ∧
+    or3 none (some true) = some true ∧ or3 none (some false) = none ∧ or3 none none = none := by decide
+
+/-! ## Errors: an error in operand i is the result only if evaluation reaches operand i -/
+
+/-- AND: operands before position `pre.length` are TRUE or NULL, the operand there fails ⇒ that error (wrapped
+    with its position) is the result, whatever follows -/
+theorem and_error_reached (pre : List Tri) (hpre : ∀ t ∈ pre, t ≠ some false) (e : Err) (post : List Res) :
+    ∀ i ne, andLoop i ne ((pre.map fun t => Res.val t.toValue) ++ .err e :: post) =
+      .err (e.wrap (.andArg (i + pre.length))) := by
+  induction pre with
+  | nil => intro i ne; simp [andLoop]
+  | cons t pre ih =>
+    intro i ne
+    have ih' := ih (fun u hu => hpre u (List.mem_cons_of_mem _ hu))
+    rw [List.map_cons, List.cons_append, List.length_cons]
+    rcases t with _ | _ | _
+    · rw [toValue_none, andLoop_null, ih']; congr 3; omega
+    · exact absurd rfl (hpre (some false) (by simp))
+    · rw [toValue_true, andLoop_true, ih']; congr 3; omega
+
+/-- AND: a FALSE operand that is reached decides the result; later errors (and panics) are never seen -/
+theorem and_false_shortcircuit (pre : List Tri) (hpre : ∀ t ∈ pre, t ≠ some false) (post : List Res) :
+    ∀ i ne, andLoop i ne ((pre.map fun t => Res.val t.toValue) ++ .val (.bool false) :: post) =
+      .val (.bool false) := by
+  induction pre with
+  | nil => intro i ne; simp [andLoop_false]
+  | cons t pre ih =>
+    intro i ne
+    have ih' := ih (fun u hu => hpre u (List.mem_cons_of_mem _ hu))
+    rw [List.map_cons, List.cons_append]
+    rcases t with _ | _ | _
+    · rw [toValue_none, andLoop_null, ih']
+    · exact absurd rfl (hpre (some false) (by simp))
+    · rw [toValue_true, andLoop_true, ih']
+
+/-- OR, dually -/
+theorem or_error_reached (pre : List Tri) (hpre : ∀ t ∈ pre, t ≠ some true) (e : Err) (post : List Res) :
+    ∀ i ne, orLoop i ne ((pre.map fun t => Res.val t.toValue) ++ .err e :: post) =
+      .err (e.wrap (.orArg (i + pre.length))) := by
+  induction pre with
+  | nil => intro i ne; simp [orLoop]
+  | cons t pre ih =>
+    intro i ne
+    have ih' := ih (fun u hu => hpre u (List.mem_cons_of_mem _ hu))
+    rw [List.map_cons, List.cons_append, List.length_cons]
+    rcases t with _ | _ | _
+    · rw [toValue_none, orLoop_null, ih']; congr 3; omega
+    · rw [toValue_false, orLoop_false, ih']; congr 3; omega
+    · exact absurd rfl (hpre (some true) (by simp))
+
+theorem or_true_shortcircuit (pre : List Tri) (hpre : ∀ t ∈ pre, t ≠ some true) (post : List Res) :
+    ∀ i ne, orLoop i ne ((pre.map fun t => Res.val t.toValue) ++ .val (.bool true) :: post) =
+      .val (.bool true) := by
+  induction pre with
+  | nil => intro i ne; simp [orLoop_true]
+  | cons t pre ih =>
+    intro i ne
+    have ih' := ih (fun u hu => hpre u (List.mem_cons_of_mem _ hu))
+    rw [List.map_cons, List.cons_append]
+    rcases t with _ | _ | _
+    · rw [toValue_none, orLoop_null, ih']
+    · rw [toValue_false, orLoop_false, ih']
+    · exact absurd rfl (hpre (some true) (by simp))
+
+/-- conversely, an error result of AND comes from an operand that failed (nothing is invented) -/
+theorem and_error_origin (rs : List Res) : ∀ i ne e, andLoop i ne rs = .err e →
+    ∃ (j : Nat) (e' : Err), rs[j]? = some (Res.err e') ∧ e = e'.wrap (.andArg (i + j)) := by
+  induction rs with
+  | nil => intro i ne e h; cases ne <;> simp [andLoop] at h
+  | cons r rs ih =>
+    intro i ne e h
+    cases r with
+    | val v =>
+      simp only [andLoop] at h
+      split at h
+      · obtain ⟨j, e', hj, he⟩ := ih _ _ _ h
+        exact ⟨j + 1, e', by simpa using hj, by rw [he]; congr 2; omega⟩
+      · split at h
+        · cases h
+        · obtain ⟨j, e', hj, he⟩ := ih _ _ _ h
+          exact ⟨j + 1, e', by simpa using hj, by rw [he]; congr 2; omega⟩
+    | err e' =>
+      simp only [andLoop, Res.err.injEq] at h
+      exact ⟨0, e', by simp, by simpa using h.symm⟩
+    | panic => simp [andLoop] at h
+
+/-! ## NOT, strict functions and `nullCheckIndices` -/
+
+/-- the generated table: `not` is strict, the six comparisons are strict, `is null` / `is not null` are not -/
+theorem not_strict : strictOf nmNot 0 = some true := by decide
+theorem comparisons_strict :
+    strictOf nmLt 0 = some true ∧ strictOf nmLe 0 = some true ∧ strictOf nmEq 0 = some true ∧
+    strictOf nmNe 0 = some true ∧ strictOf nmGe 0 = some true ∧ strictOf nmGt 0 = some true := by decide
+theorem is_null_not_strict : strictOf nmIsNull 0 = some false ∧ strictOf nmIsNotNull 0 = some false := by decide
+
+/-- every descriptor of `FunctionMap()` is strict, except those of `is null`, `is not null`, `string`, `panic` -/
+theorem table_strict_except_null_handlers :
+    ∀ e ∈ Octo.Gen.Strict.table, e.strict = true ∨
+      e.name = nmIsNull ∨ e.name = nmIsNotNull ∨ e.name = nmString ∨ e.name = nmPanic := by decide
+
+theorem argLoop_vals (vs : List Value) : ∀ i, argLoop i (vs.map Res.val) = .ok vs := by
+  induction vs with
+  | nil => intro i; rfl
+  | cons v vs ih => intro i; simp [argLoop, ih]
+
+/-- what `Materialize` + `FunctionCall.Evaluate` do with a call whose arguments have all been evaluated -/
+theorem eval_call (env : List (List Value)) (schema : List (List Nat)) (ty : Ty) (d : Desc) (args : List PExpr)
+    (vs : List Value) (h : evalList env (materializeList schema args) = vs.map Res.val) :
+    eval env (materialize schema (.call ty d args)) = applyFn d.fn (nullCheckIndices d args) vs := by
+  simp only [materialize, eval]
+  rw [evalArgs_eq, h, argLoop_vals]
+
+theorem evalList_length (env : List (List Value)) (xs : List Expr) : (evalList env xs).length = xs.length := by
+  induction xs with
+  | nil => rfl
+  | cons a rest ih => simp [evalList, ih]
+
+theorem materializeList_length (schema : List (List Nat)) (args : List PExpr) :
+    (materializeList schema args).length = args.length := by
+  induction args with
+  | nil => rfl
+  | cons a rest ih => simp [materializeList, ih]
+
+/-- **Strict call, checked NULL.** For a `Strict` descriptor — whatever its body —, if all arguments evaluate and
+    the argument at a position whose static type admits NULL is NULL, the call is NULL. -/
+theorem strict_null (env : List (List Value)) (schema : List (List Nat)) (ty : Ty) (d : Desc) (args : List PExpr)
+    (vs : List Value) (hstrict : d.strict = true)
+    (hvals : evalList env (materializeList schema args) = vs.map Res.val)
+    (i : Nat) (a : PExpr) (ha : args[i]? = some a) (hty : nullIs a.ty = true) (hnull : vs[i]? = some .null) :
+    eval env (materialize schema (.call ty d args)) = .val .null := by
+  rw [eval_call env schema ty d args vs hvals]
+  have hlen : vs.length = args.length := by
+    have := congrArg List.length hvals
+    simpa [evalList_length, materializeList_length] using this.symm
+  have hnc : nullCheck vs (nullCheckIndices d args) = some (.val .null) := by
+    apply nullCheck_hit
+    · intro j hj
+      simp only [nullCheckIndices, hstrict, if_true] at hj
+      obtain ⟨m, rfl, b, hb, _⟩ := (mem_nullCheckIdx args 0 j).1 hj
+      have : m < args.length := by
+        rcases Nat.lt_or_ge m args.length with h | h
+        · exact h
+        · rw [List.getElem?_eq_none h] at hb; cases hb
+      omega
+    · refine ⟨i, ?_, hnull⟩
+      simp only [nullCheckIndices, hstrict, if_true]
+      exact (mem_nullCheckIdx args 0 i).2 ⟨i, by omega, a, ha, hty⟩
+  simp [applyFn, hnc]
+
+/-- **`nullcheck_complete`.** If an argument value conforms to the argument's static type (spec notion) and is
+    NULL, its position is in `nullCheckIndices` of a strict call. -/
+theorem nullcheck_complete (d : Desc) (args : List PExpr) (hstrict : d.strict = true)
+    (i : Nat) (a : PExpr) (ha : args[i]? = some a) (hconf : conforms a.ty .null = true) :
+    i ∈ nullCheckIndices d args := by
+  simp only [nullCheckIndices, hstrict, if_true]
+  exact (mem_nullCheckIdx args 0 i).2 ⟨i, by omega, a, ha, conforms_null a.ty hconf⟩
+
+/-- and nothing else is checked: a checked position has a static type NULL conforms to -/
+theorem nullcheck_exact (d : Desc) (args : List PExpr) (i : Nat) (h : i ∈ nullCheckIndices d args) :
+    d.strict = true ∧ ∃ a, args[i]? = some a ∧ conforms a.ty .null = true := by
+  simp only [nullCheckIndices] at h
+  split at h
+  · rename_i hs
+    obtain ⟨m, hm, a, ha, hn⟩ := (mem_nullCheckIdx args 0 i).1 h
+    have : m = i := by omega
+    subst this
+    exact ⟨hs, a, ha, null_conforms a.ty hn⟩
+  · simp at h
+
+/-- **Strict functions return NULL whenever an argument is NULL** (well-typed calls): every argument value
+    conforms to its static type, some argument is NULL ⇒ the call is NULL, for every strict descriptor and body. -/
+theorem strict_null_welltyped (env : List (List Value)) (schema : List (List Nat)) (ty : Ty) (d : Desc)
+    (args : List PExpr) (vs : List Value) (hstrict : d.strict = true)
+    (hvals : evalList env (materializeList schema args) = vs.map Res.val)
+    (hconf : ∀ (i : Nat) (a : PExpr) (v : Value), args[i]? = some a → vs[i]? = some v → conforms a.ty v = true)
+    (i : Nat) (hnull : vs[i]? = some .null) :
+    eval env (materialize schema (.call ty d args)) = .val .null := by
+  have hlen : vs.length = args.length := by
+    have := congrArg List.length hvals
+    simpa [evalList_length, materializeList_length] using this.symm
+  have hi : i < args.length := by
+    rcases Nat.lt_or_ge i vs.length with h | h
+    · omega
+    · rw [List.getElem?_eq_none h] at hnull; cases hnull
+  have ha : args[i]? = some args[i] := by simp [hi]
+  exact strict_null env schema ty d args vs hstrict hvals i args[i] ha
+    (conforms_null _ (hconf i args[i] .null ha hnull)) hnull
+
+/-- the same, stated over the generated table: any descriptor that `functions.go` marks `Strict` -/
+theorem table_strict_null (env : List (List Value)) (schema : List (List Nat)) (ty : Ty)
+    (name : List Nat) (idx : Nat) (body : List Value → Res) (hs : strictOf name idx = some true)
+    (args : List PExpr) (vs : List Value)
+    (hvals : evalList env (materializeList schema args) = vs.map Res.val)
+    (hconf : ∀ (i : Nat) (a : PExpr) (v : Value), args[i]? = some a → vs[i]? = some v → conforms a.ty v = true)
+    (i : Nat) (hnull : vs[i]? = some .null) :
+    eval env (materialize schema (.call ty (tableDesc name idx body) args)) = .val .null :=
+  strict_null_welltyped env schema ty _ args vs (by simp [tableDesc, hs]) hvals hconf i hnull
+
+/-- strict call without NULL arguments: the body's result (an error of the body is wrapped once) -/
+theorem strict_nonnull (env : List (List Value)) (schema : List (List Nat)) (ty : Ty) (d : Desc) (args : List PExpr)
+    (vs : List Value) (hvals : evalList env (materializeList schema args) = vs.map Res.val)
+    (hnn : ∀ v ∈ vs, isNull v = false) :
+    eval env (materialize schema (.call ty d args)) = wrapBody (d.fn vs) := by
+  rw [eval_call env schema ty d args vs hvals]
+  have hlen : vs.length = args.length := by
+    have := congrArg List.length hvals
+    simpa [evalList_length, materializeList_length] using this.symm
+  have hnc : nullCheck vs (nullCheckIndices d args) = none := by
+    apply nullCheck_miss _ _ _ hnn
+    intro j hj
+    simp only [nullCheckIndices] at hj
+    split at hj
+    · obtain ⟨m, rfl, b, hb, _⟩ := (mem_nullCheckIdx args 0 j).1 hj
+      have : m < args.length := by
+        rcases Nat.lt_or_ge m args.length with h | h
+        · exact h
+        · rw [List.getElem?_eq_none h] at hb; cases hb
+      omega
+    · simp at hj
+  simp [applyFn, hnc]
+
+/-- NOT's table on a nullable operand: NULL ↦ NULL, TRUE ↦ FALSE, FALSE ↦ TRUE -/
+theorem not_table (env : List (List Value)) (schema : List (List Nat)) (ty aty : Ty) (h : nullIs aty = true) (t : Tri) :
+    eval env (materialize schema (.call ty (tableDesc nmNot 0 fnNot) [.const aty t.toValue])) =
+      .val (not3 t).toValue := by
+  rcases t with _ | b
+  · exact strict_null env schema ty _ [.const aty Value.null] [.null] (by simp [tableDesc, not_strict])
+      (by simp [materializeList, materialize, evalList, eval]) 0 _ rfl h rfl
+  · show eval env (materialize schema (.call ty (tableDesc nmNot 0 fnNot) [.const aty (.bool b)])) = _
+    rw [strict_nonnull env schema ty _ [.const aty (.bool b)] [.bool b]
+      (by simp [materializeList, materialize, evalList, eval]) (by simp [isNull])]
+    simp [tableDesc, fnNot, boolField, not3, Tri.toValue, wrapBody]
+
+/-- the six comparisons (and `=` / `!=`) on a NULL operand of nullable static type are NULL, on either side -/
+theorem comparison_null (env : List (List Value)) (schema : List (List Nat)) (ty aty bty : Ty) (name : List Nat)
+    (body : List Value → Res)
+    (hname : name = nmLt ∨ name = nmLe ∨ name = nmEq ∨ name = nmNe ∨ name = nmGe ∨ name = nmGt)
+    (a b : Value) (hca : conforms aty a = true) (hcb : conforms bty b = true)
+    (hnull : a = .null ∨ b = .null) :
+    eval env (materialize schema (.call ty (tableDesc name 0 body) [.const aty a, .const bty b])) = .val .null := by
+  have hs : strictOf name 0 = some true := by
+    rcases hname with rfl | rfl | rfl | rfl | rfl | rfl <;> decide
+  have hv : evalList env (materializeList schema [.const aty a, .const bty b]) = [a, b].map Res.val := by
+    simp [materializeList, materialize, evalList, eval]
+  have hconf : ∀ (i : Nat) (x : PExpr) (v : Value), [PExpr.const aty a, .const bty b][i]? = some x → [a, b][i]? = some v →
+      conforms x.ty v = true := by
+    intro i x v hx hv
+    match i with
+    | 0 => simp at hx hv; subst hx hv; exact hca
+    | 1 => simp at hx hv; subst hx hv; exact hcb
+    | n + 2 => simp at hx
+  rcases hnull with rfl | rfl
+  · exact table_strict_null env schema ty name 0 body hs _ _ hv hconf 0 rfl
+  · exact table_strict_null env schema ty name 0 body hs _ _ hv hconf 1 rfl
+
+/-! ## IS NULL / IS NOT NULL never return NULL -/
+
+theorem is_null_never_null (env : List (List Value)) (schema : List (List Nat)) (ty : Ty) (a : PExpr) (v : Value)
+    (hv : eval env (materialize schema a) = .val v) :
+    eval env (materialize schema (.call ty (tableDesc nmIsNull 0 fnIsNull) [a])) = .val (.bool (isNull v)) ∧
+    eval env (materialize schema (.call ty (tableDesc nmIsNotNull 0 fnIsNotNull) [a])) = .val (.bool (!isNull v)) := by
+  have hl : evalList env (materializeList schema [a]) = [v].map Res.val := by
+    simp [materializeList, evalList, hv]
+  constructor
+  · rw [eval_call env schema ty _ [a] [v] hl]
+    simp only [nullCheckIndices, tableDesc, is_null_not_strict.1, Option.getD_some, applyFn]
+    simp only [Bool.false_eq_true, if_false, fnIsNull]
+    cases isNull v <;> rfl
+  · rw [eval_call env schema ty _ [a] [v] hl]
+    simp only [nullCheckIndices, tableDesc, is_null_not_strict.2, Option.getD_some, applyFn]
+    simp only [Bool.false_eq_true, if_false, fnIsNotNull]
+    cases isNull v <;> rfl
+
+/-! ## Boolean expression trees of any depth: `Materialize` + `Evaluate` = Kleene semantics -/
+
+/-- outcome of the AND loop in terms of the reference result of the remaining operands -/
+def andRes (ne : Bool) : Sem → Res
+  | .error e => .err e
+  | .ok r => .val (if ne then and3 none r else r).toValue
+def orRes (ne : Bool) : Sem → Res
+  | .error e => .err e
+  | .ok r => .val (if ne then or3 none r else r).toValue
+
+/-- a variable bound by the record's schema evaluates to the record's column -/
+theorem eval_var (names : List Nat) (tris : List Tri) (outer : List (List Value)) (souter : List (List Nat))
+    (hlen : names.length = tris.length) (ty : Ty) (n : Nat) (hb : (findField n 0 names).isSome = true) :
+    eval (tris.map Tri.toValue :: outer) (materialize (names :: souter) (.var ty n)) =
+      .val (envOf names tris n).toValue := by
+  obtain ⟨i, hi⟩ := Option.isSome_iff_exists.1 hb
+  have hr := findField_range n names 0 i hi
+  have hlt : i < tris.length := by omega
+  simp only [materialize, resolveVar, hi, eval, lookupVar, envOf]
+  simp [hlt]
+
+mutual
+/-- **Tree soundness.** For a typed boolean tree whose variables are bound and whose static types are sound,
+    evaluating the materialized expression gives the reference result (value or the error reached first), and a
+    NULL result is admitted by the node's static type. -/
+theorem den_sound (names : List Nat) (tris : List Tri) (outer : List (List Value)) (souter : List (List Nat))
+    (hlen : names.length = tris.length) (t : TTree)
+    (hb : t.bound names = true) (hok : t.ok (envOf names tris) = true) :
+    eval (tris.map Tri.toValue :: outer) (materialize (names :: souter) t.toP) = (t.den (envOf names tris)).toRes
+    ∧ (t.den (envOf names tris) = .ok none → nullIs t.ty = true) := by
+  cases t with
+  | const ty t =>
+    simp only [TTree.ok, Bool.or_eq_true] at hok
+    refine ⟨by simp [TTree.toP, materialize, eval, TTree.den, Sem.toRes], ?_⟩
+    intro h
+    simp only [TTree.den, Except.ok.injEq] at h
+    subst h
+    simpa [TTree.ty] using hok
+  | var ty n =>
+    simp only [TTree.ok, Bool.or_eq_true] at hok
+    simp only [TTree.bound] at hb
+    refine ⟨by simpa [TTree.toP, TTree.den, Sem.toRes] using eval_var names tris outer souter hlen ty n hb, ?_⟩
+    intro h
+    simp only [TTree.den, Except.ok.injEq] at h
+    rw [h] at hok
+    simpa [TTree.ty] using hok
+  | fail ty tag =>
+    refine ⟨?_, by simp [TTree.den]⟩
+    have hl : evalList (tris.map Tri.toValue :: outer) (materializeList (names :: souter) [.const .str (.str tag)]) =
+        [Value.str tag].map Res.val := by
+      simp [materializeList, materialize, evalList, eval]
+    simp only [TTree.toP]
+    rw [strict_nonnull _ _ ty _ _ [.str tag] hl (by simp [isNull])]
+    simp [tableDesc, fnPanic, wrapBody, TTree.den, Sem.toRes, Err.wrap]
+  | and ty args =>
+    simp only [TTree.ok, Bool.and_eq_true, Bool.or_eq_true, Bool.not_eq_true'] at hok
+    simp only [TTree.bound] at hb
+    obtain ⟨h1, h2⟩ := denAnd_sound names tris outer souter hlen args hb hok.1 0 false
+    refine ⟨?_, ?_⟩
+    · simp only [TTree.toP, materialize, eval, TTree.den]
+      rw [h1]
+      cases TTree.denAnd (envOf names tris) 0 args <;> simp [andRes, Sem.toRes]
+    · intro h
+      simp only [TTree.den] at h
+      have := h2 h
+      rcases hok.2 with h3 | h3
+      · rw [this] at h3; cases h3
+      · simpa [TTree.ty] using h3
+  | or ty args =>
+    simp only [TTree.ok, Bool.and_eq_true, Bool.or_eq_true, Bool.not_eq_true'] at hok
+    simp only [TTree.bound] at hb
+    obtain ⟨h1, h2⟩ := denOr_sound names tris outer souter hlen args hb hok.1 0 false
+    refine ⟨?_, ?_⟩
+    · simp only [TTree.toP, materialize, eval, TTree.den]
+      rw [h1]
+      cases TTree.denOr (envOf names tris) 0 args <;> simp [orRes, Sem.toRes]
+    · intro h
+      simp only [TTree.den] at h
+      have := h2 h
+      rcases hok.2 with h3 | h3
+      · rw [this] at h3; cases h3
+      · simpa [TTree.ty] using h3
+  | not ty a =>
+    simp only [TTree.ok, Bool.and_eq_true, Bool.or_eq_true, Bool.not_eq_true'] at hok
+    simp only [TTree.bound] at hb
+    obtain ⟨h1, h2⟩ := den_sound names tris outer souter hlen a hb hok.1
+    cases hd : a.den (envOf names tris) with
+    | error e =>
+      rw [hd] at h1
+      refine ⟨?_, by simp [TTree.den, hd]⟩
+      simp only [TTree.toP, materialize, materializeList, eval, evalArgs, h1, Sem.toRes, TTree.den, hd]
+    | ok r =>
+      rw [hd] at h1 h2
+      have hl : evalList (tris.map Tri.toValue :: outer) (materializeList (names :: souter) [a.toP]) =
+          [r.toValue].map Res.val := by
+        simp [materializeList, evalList, h1, Sem.toRes]
+      rcases r with _ | b
+      · have hn : nullIs a.ty = true := h2 rfl
+        refine ⟨?_, ?_⟩
+        · simp only [TTree.toP, TTree.den, hd, Sem.toRes, not3]
+          exact strict_null _ _ ty _ [a.toP] [Value.null] (by simp [tableDesc, not_strict]) hl 0 a.toP rfl
+            (by rw [toP_ty]; exact hn) rfl
+        · intro _
+          rcases hok.2 with h3 | h3
+          · rw [hn] at h3; cases h3
+          · simpa [TTree.ty] using h3
+      · refine ⟨?_, by simp [TTree.den, hd, not3]⟩
+        simp only [TTree.toP, TTree.den, hd, Sem.toRes, not3]
+        rw [strict_nonnull _ _ ty _ [a.toP] [Value.bool b] hl (by simp [isNull])]
+        simp [tableDesc, fnNot, boolField, wrapBody, Tri.toValue]
+  | isNull ty a =>
+    simp only [TTree.ok] at hok
+    simp only [TTree.bound] at hb
+    obtain ⟨h1, _⟩ := den_sound names tris outer souter hlen a hb hok
+    cases hd : a.den (envOf names tris) with
+    | error e =>
+      rw [hd] at h1
+      refine ⟨?_, by simp [TTree.den, hd]⟩
+      simp only [TTree.toP, materialize, materializeList, eval, evalArgs, h1, Sem.toRes, TTree.den, hd]
+    | ok r =>
+      rw [hd] at h1
+      refine ⟨?_, by simp [TTree.den, hd]⟩
+      simp only [TTree.toP, TTree.den, hd, Sem.toRes]
+      rw [(is_null_never_null _ _ ty a.toP r.toValue (by simpa [Sem.toRes] using h1)).1]
+      rcases r with _ | _ | _ <;> rfl
+  | isNotNull ty a =>
+    simp only [TTree.ok] at hok
+    simp only [TTree.bound] at hb
+    obtain ⟨h1, _⟩ := den_sound names tris outer souter hlen a hb hok
+    cases hd : a.den (envOf names tris) with
+    | error e =>
+      rw [hd] at h1
+      refine ⟨?_, by simp [TTree.den, hd]⟩
+      simp only [TTree.toP, materialize, materializeList, eval, evalArgs, h1, Sem.toRes, TTree.den, hd]
+    | ok r =>
+      rw [hd] at h1
+      refine ⟨?_, by simp [TTree.den, hd]⟩
+      simp only [TTree.toP, TTree.den, hd, Sem.toRes]
+      rw [(is_null_never_null _ _ ty a.toP r.toValue (by simpa [Sem.toRes] using h1)).2]
+      rcases r with _ | _ | _ <;> rfl
+theorem denAnd_sound (names : List Nat) (tris : List Tri) (outer : List (List Value)) (souter : List (List Nat))
+    (hlen : names.length = tris.length) (args : List TTree)
+    (hb : TTree.boundList names args = true) (hok : TTree.okList (envOf names tris) args = true) :
+    ∀ i ne, evalAnd (tris.map Tri.toValue :: outer) i ne (materializeList (names :: souter) (TTree.toPList args)) =
+        andRes ne (TTree.denAnd (envOf names tris) i args)
+      ∧ (TTree.denAnd (envOf names tris) i args = .ok none → anyNullable args = true) := by
+  cases args with
+  | nil => intro i ne; cases ne <;> simp [TTree.toPList, materializeList, evalAnd, TTree.denAnd, andRes, Tri.toValue, and3]
+  | cons a rest =>
+    intro i ne
+    simp only [TTree.boundList, Bool.and_eq_true] at hb
+    simp only [TTree.okList, Bool.and_eq_true] at hok
+    obtain ⟨h1, h2⟩ := den_sound names tris outer souter hlen a hb.1 hok.1
+    simp only [TTree.toPList, materializeList, evalAnd, TTree.denAnd, anyNullable, Bool.or_eq_true]
+    rw [h1]
+    cases hd : a.den (envOf names tris) with
+    | error e => simp [Sem.toRes, andRes]
+    | ok r =>
+      rw [hd] at h2
+      rcases r with _ | _ | _
+      · obtain ⟨g1, _⟩ := denAnd_sound names tris outer souter hlen rest hb.2 hok.2 (i + 1) true
+        simp only [Sem.toRes, toValue_none, isNull, if_true]
+        rw [g1]
+        refine ⟨?_, fun _ => Or.inl (h2 rfl)⟩
+        cases TTree.denAnd (envOf names tris) (i + 1) rest with
+        | error e => simp [andRes]
+        | ok r => cases ne <;> simp [andRes, and3_none_idem]
+      · simp [Sem.toRes, toValue_false, isNull, boolField, andRes, and3]
+      · obtain ⟨g1, g2⟩ := denAnd_sound names tris outer souter hlen rest hb.2 hok.2 (i + 1) ne
+        simp only [Sem.toRes, toValue_true, isNull, boolField, Bool.not_true, Bool.false_eq_true, if_false]
+        rw [g1]
+        cases hr : TTree.denAnd (envOf names tris) (i + 1) rest with
+        | error e => simp [andRes]
+        | ok r =>
+          rw [hr] at g2
+          simp only [and3_true_left, andRes, true_and, Except.ok.injEq]
+          intro h
+          exact Or.inr (g2 (by rw [h]))
+theorem denOr_sound (names : List Nat) (tris : List Tri) (outer : List (List Value)) (souter : List (List Nat))
+    (hlen : names.length = tris.length) (args : List TTree)
+    (hb : TTree.boundList names args = true) (hok : TTree.okList (envOf names tris) args = true) :
+    ∀ i ne, evalOr (tris.map Tri.toValue :: outer) i ne (materializeList (names :: souter) (TTree.toPList args)) =
+        orRes ne (TTree.denOr (envOf names tris) i args)
+      ∧ (TTree.denOr (envOf names tris) i args = .ok none → anyNullable args = true) := by
+  cases args with
+  | nil => intro i ne; cases ne <;> simp [TTree.toPList, materializeList, evalOr, TTree.denOr, orRes, Tri.toValue, or3]
+  | cons a rest =>
+    intro i ne
+    simp only [TTree.boundList, Bool.and_eq_true] at hb
+    simp only [TTree.okList, Bool.and_eq_true] at hok
+    obtain ⟨h1, h2⟩ := den_sound names tris outer souter hlen a hb.1 hok.1
+    simp only [TTree.toPList, materializeList, evalOr, TTree.denOr, anyNullable, Bool.or_eq_true]
+    rw [h1]
+    cases hd : a.den (envOf names tris) with
+    | error e => simp [Sem.toRes, orRes]
+    | ok r =>
+      rw [hd] at h2
+      rcases r with _ | _ | _
+      · obtain ⟨g1, _⟩ := denOr_sound names tris outer souter hlen rest hb.2 hok.2 (i + 1) true
+        simp only [Sem.toRes, toValue_none, isNull, boolField, Bool.false_eq_true, if_false, Bool.or_true]
+        rw [g1]
+        refine ⟨?_, fun _ => Or.inl (h2 rfl)⟩
+        cases TTree.denOr (envOf names tris) (i + 1) rest with
+        | error e => simp [orRes]
+        | ok r => cases ne <;> simp [orRes, or3_none_idem]
+      · obtain ⟨g1, g2⟩ := denOr_sound names tris outer souter hlen rest hb.2 hok.2 (i + 1) ne
+        simp only [Sem.toRes, toValue_false, isNull, boolField, Bool.false_eq_true, if_false, Bool.or_false]
+        rw [g1]
+        cases hr : TTree.denOr (envOf names tris) (i + 1) rest with
+        | error e => simp [orRes]
+        | ok r =>
+          rw [hr] at g2
+          simp only [or3_false_left, orRes, true_and, Except.ok.injEq]
+          intro h
+          exact Or.inr (g2 (by rw [h]))
+      · simp [Sem.toRes, toValue_true, boolField, orRes, or3]
+end
 
 end Octo.C11
